@@ -4,7 +4,7 @@ from __future__ import annotations
 from typing import Any, Dict, Iterable, List, Optional
 
 from ..kit import (
-    Ctx, calls, calls_target, kw, normal_paths, options, product_worlds, rule, short, stores,
+    Ctx, caller_ok, calls, calls_target, kw, normal_paths, options, product_worlds, rule, short, stores,
     table_check, weak_orders,
 )
 from ..paths import Event, Path
@@ -237,12 +237,16 @@ def r3(ctx: Ctx) -> None:
                 ctx.check(not bad, f, w.node, construct, f"store precedes the insertion ({entry}) on every path",
                           "store after the order entered the book on: " + bad[0] if bad else "precedes insertion")
                 continue
+            if caller_ok(ctx, f, lambda g: g.qualname in ("Order.__init__", "Market._add_order", "OrderBook.add") or (g.name == "hooked_before_order" and g.cls is not None and p.is_subclass(g.cls.name, "EventABC"))):
+                # a private helper of an allowed writer: its store is seen, inlined, on the caller's paths
+                ctx.holds(f, w.node, construct, expected="helper of an allowed writer", found="inlined into its caller (ordering checked there)")
+                continue
             ctx.violated(f, w.node, construct, "only Order.__init__, Market._add_order/OrderBook.add (before insertion) and order-before hooks write sort keys",
                          f"{q} writes Order.{attr}")
 
 
 # ----------------------------------------------------------------------------- consumption in pop order
-@rule("C02.R4", "the walk pops a side only when its current order is fully allocated, and allocates min(remaining) to the current pair", "T3 guard + T10 provenance", floor=6)
+@rule("C02.R4", "the walk pops a side only when its current order is fully allocated, and allocates min(remaining) to the current pair", "T3 guard + T10 provenance", floor=4)
 def r4(ctx: Ctx) -> None:
     w = analyse_walk(ctx)
     f = ctx.func("Market._execution")
